@@ -329,7 +329,59 @@ pub fn sets(ctx: &Ctx) -> Vec<CaseSet> {
     let per = ctx.size(20_000, 900_000);
     let tb = Arc::new(Tables::new());
     let tb2 = tb.clone();
+    // every f32 the deserializer can return must survive its own serialization (all 2^32
+    // bit patterns in thorough, a seed-dependent 2^24 slice in quick)
+    let (f32_blocks, f32_block_len) = if ctx.thorough { (4096u64, 1u64 << 20) } else { (256u64, 1u64 << 16) };
+    let f32_offset = if ctx.thorough { 0 } else { ((ctx.seed + 128) % 256) << 16 };
+    let thorough = ctx.thorough;
     vec![
+        CaseSet::new(
+            "f32-self-consistency-all-bit-patterns",
+            f32_blocks,
+            Box::new(move |rep, _rng, case| {
+                let lo = if thorough { case * f32_block_len } else { case * (1u64 << 24) + f32_offset };
+                crate::props::c04::f32_block(rep, lo, lo + f32_block_len, "C18");
+            }),
+        ),
+        // a very long list where the target type skips it (unknown struct field, IgnoredAny)
+        // or wraps it (Option, map value): total on a default-sized stack, in child processes
+        CaseSet::new(
+            "long-lists-in-skipped-positions-children",
+            4,
+            Box::new(move |rep, _rng, case| {
+                use crate::mon::child::{self, Exit};
+                let op = ["serde-skipped-field", "serde-ignored-any", "serde-option-of-list", "serde-map-value-list"][case as usize];
+                let mut bins: Vec<(&str, String)> = Vec::new();
+                for (label, var) in [("release", "VH_REL_BIN"), ("dev", "VH_DEV_BIN")] {
+                    if let Ok(b) = std::env::var(var) {
+                        if !b.is_empty() {
+                            bins.push((label, b));
+                        }
+                    }
+                }
+                if bins.is_empty() {
+                    rep.inconclusive("VH_REL_BIN / VH_DEV_BIN not set".into());
+                    return;
+                }
+                for (label, bin) in bins {
+                    let args: Vec<String> = vec!["child".into(), "c16".into(), op.into(), "1000000".into(), "2048".into(), "proper".into(), "int".into()];
+                    let r = child::run(&bin, &args, std::time::Duration::from_secs(600));
+                    rep.eval();
+                    rep.distinct(hash2(hash_str(op), hash_str(label)));
+                    match &r.exit {
+                        Exit::Code(0) if r.stdout.contains("DONE") => rep.count("skipped-position-children:completed"),
+                        _ if r.stack_overflow() => rep.violation(
+                            "total",
+                            format!("C18:abort:stack-overflow:{}", op),
+                            format!("from_value with a 10^6-element list in a {} position ({} build, 2 MiB thread): the process died of stack overflow ({:?})", op, label, r.exit),
+                            json!({"op": op, "build": label}),
+                        ),
+                        Exit::Timeout => rep.inconclusive(format!("child watchdog fired for {}", op)),
+                        other => rep.inconclusive(format!("child for {} ended unexpectedly: {:?} {}", op, other, r.stderr_tail)),
+                    }
+                }
+            }),
+        ),
         CaseSet::new("any-driven-targets-totality", ctx.size(30_000, 1_500_000), Box::new(move |rep, rng, _| any_driven(rep, rng, &tb2))),
         CaseSet::new(
             "arbitrary-and-near-miss-values-x-type-family",
